@@ -22,7 +22,7 @@ import vlib
 TAG = "x07"
 CFG = {
     "quick": dict(mc="MC_NumText.cfg", gen="Gen_NumText.cfg", nrand=8, chunks=8, a_chunks=3, a_stride=4, all_fns=False, reps=1),
-    "thorough": dict(mc="MC_NumText_t.cfg", gen="Gen_NumText_t.cfg", nrand=120, chunks=12, a_chunks=8, a_stride=1, all_fns=True, reps=3),
+    "thorough": dict(mc="MC_NumText_t.cfg", gen="Gen_NumText_t.cfg", nrand=120, chunks=12, a_chunks=8, a_stride=2, all_fns=False, reps=3),
 }
 JVM_SMALL = {"JAVA_TOOL_OPTIONS": "-XX:ParallelGCThreads=2 -XX:CICompilerCount=2"}
 JVM_MID = {"JAVA_TOOL_OPTIONS": "-XX:ParallelGCThreads=4 -XX:CICompilerCount=3"}
